@@ -137,6 +137,10 @@ type wgOpts struct {
 
 // checkWeightedModel runs all weighted-graph monitors on one model for property run.Prop.
 func checkWeightedModel(run *core.Run, m *openfgav1.AuthorizationModel, r *rand.Rand, o wgOpts) {
+	run.Guard(&core.Case{Kind: "model", Model: modelJSON(m)}, func() { checkWeightedModel1(run, m, r, o) })
+}
+
+func checkWeightedModel1(run *core.Run, m *openfgav1.AuthorizationModel, r *rand.Rand, o wgOpts) {
 	c := &core.Case{Kind: "model", Model: modelJSON(m)}
 	prop := run.Prop
 	type pending struct{ p, class, exp, obs string }
